@@ -268,9 +268,14 @@ def extra_obligations(index, tier):
             fi = index.find_method(cls, m)
             roles.append(_const_return(fi) if fi else None)
         ok = all(r in (True, False) for r in roles) and sum(1 for r in roles if r) <= 1
-        exp = want.get(cls, (False, False, False))
-        ok = ok and tuple(roles) == exp
-        out.append((f"node-role-table/{cls}=={exp}", ok, f"found {roles}", "codebasin.preprocessor:Node"))
+        known = ("Node", "FileNode", "CodeNode", "DirectiveNode", "UnrecognizedDirectiveNode", "PragmaNode", "DefineNode", "UndefNode",
+                 "IncludeNode", "IfNode", "ElIfNode", "ElseNode", "EndIfNode")
+        if cls in want or cls in known:
+            exp = want.get(cls, (False, False, False))
+            out.append((f"node-role-table/{cls}=={exp}", ok and tuple(roles) == exp, f"found {roles}", "codebasin.preprocessor:Node"))
+        else:
+            # a node class this table does not know (an extension of the tool): only the shape of its roles is demanded
+            out.append((f"node-role-table/{cls}: constant roles, at most one", ok, f"found {roles}", "codebasin.preprocessor:Node"))
     return out
 
 
